@@ -331,10 +331,14 @@ func c19ReadScns[T any](t *testing.T) []T {
 }
 
 // suite file with one test case, as parseTestSuites gets it (protoyaml reads JSON as YAML)
+var c19SuiteSeq atomic.Int64
+
 func c19SuiteData(tc *conformancev1.TestCase, codecs []conformancev1.Codec) ([]byte, error) {
 	suite := &conformancev1.TestSuite{
-		Name:                        "C19",
-		ReliesOnMessageReceiveLimit: true,
+		Name: "C19",
+		// expand_requests is a directive of the test case; whether the suite also says that it relies on the
+		// receive limit (which only selects the config cases it applies to) has no bearing on it
+		ReliesOnMessageReceiveLimit: c19SuiteSeq.Add(1)%3 != 0,
 		RelevantCodecs:              codecs,
 		TestCases:                   []*conformancev1.TestCase{tc},
 	}
